@@ -310,13 +310,17 @@ impl Decoder {
                     .get(try_opt!(dict.default_crypt_filter.as_ref()).as_str())
                     .ok_or_else(|| other!("missing crypt filter entry {:?}", dict.default_crypt_filter.as_ref()))?;
 
+                let filter_bits = match default.length {
+                    Some(n) => n.checked_mul(8).ok_or_else(|| other!("invalid key length {}", n))?,
+                    None => dict.bits,
+                };
                 match default.method {
                     CryptMethod::V2 | CryptMethod::AESV2 => (
-                        default.length.map(|n| 8 * n).unwrap_or(dict.bits),
+                        filter_bits,
                         default.method,
                     ),
                     CryptMethod::AESV3 if dict.v == 5 => (
-                        default.length.map(|n| 8 * n).unwrap_or(dict.bits),
+                        filter_bits,
                         default.method,
                     ),
                     m => err!(other!("unimplemented crypt method {:?}", m)),
@@ -330,6 +334,9 @@ impl Decoder {
         };
         if level <= 4 {
             let key_size = key_bits as usize / 8;
+            if key_size == 0 {
+                err!(other!("invalid key length {}", key_bits));
+            }
             let key = key_derivation_user_password_rc4(level, key_size, dict, id, pass);
 
             if check_password_rc4(level, dict.u.as_bytes(), id, &key[..std::cmp::min(key_size, 16)]) {
